@@ -4,7 +4,8 @@
    system over an abstract step scheduler - snapshot threads under statusLock with separate lock / read / copy / append labels,
    Close's compaction;
    client.GetLatestStatus; the daemon's Start guard; the socket as absent / stale / live).
-   The model follows /repo after the repairs b9e9fa2 (F8a), 3aa388e (F7a), 7f2c2d0 (F8b/F8c) and ac08004 (F5c).
+   The model follows /repo after the repairs b9e9fa2 (F8a), 3aa388e (F7a), 7f2c2d0 (F8b/F8c), ac08004 (F5c), eb925d1 (F7b: compaction
+   by tmp + rename, readers drop an original next to its twin) and a924e5c (F16a: flock on the DAG file during start-up).
    Every theorem quantifies over all table sizes n, socket pre-states s0 and label sequences ls; `exec ... ls = Some st`
    for an arbitrary ls means: st is the state at an arbitrary kill point of an arbitrary interleaving.
    Tie to the code: tools/props/C08.py (in-process agent runs: persisted lines and live answers against Status/Check.v;
@@ -27,7 +28,7 @@ Proof. exact live_when_bound. Qed.
 Print Assumptions C08_live_when_bound.
 
 Example C08_live_nonvacuous : exists st,
-  exec (init 2 SockStale) [LOpen; LWriteS0; LBind; LSched AStart; LSched (ALaunch 0); LSched (AEnd 0 true)] = Some st /\
+  exec (init 2 SockStale) [LLockDag; LOpen; LWriteS0; LBind; LSched AStart; LSched (ALaunch 0); LSched (AEnd 0 true)] = Some st /\
   in_progress st = true /\ map nst (s_tbl (fst (report 2 st))) = [NSuccess; NNone] /\ s_ov (fst (report 2 st)) = ORunning.
 Proof. exact live_nonvacuous. Qed.
 
@@ -53,7 +54,7 @@ Proof. exact f8b_main_must_wait. Qed.
 Example C08_final_former_witness : exists st,
   exec (init 2 SockAbsent)
     (f8b_prefix ++ [LFsAppend; LCLock; LCOv; LCTbl; LCAppend; LFinalLock; LFinalCompute; LFinalAppend; LFinish; LUnbind;
-                    LCompactRead; LCompactCreate; LCompactWrite; LCompactUnlink; LCloseWriter]) = Some st /\
+                    LCompactRead; LCompactCreate; LCompactWrite; LCompactRename; LCompactUnlink; LCloseWriter]) = Some st /\
   mp st = MClosed /\ persisted st = PSnap (snap_of (sc st)) /\ s_ov (fst (report 2 st)) = OSuccess /\
   map (fun x => s_ov x) (file st) = [ONone; ORunning; ORunning; OSuccess; OSuccess].
 Proof. exact f8b_trace_now_final. Qed.
@@ -61,7 +62,7 @@ Proof. exact f8b_trace_now_final. Qed.
 (* a snapshot goroutine that comes after the final status appends nothing *)
 Example C08_late_snapshot_not_appended : exists st st',
   exec (init 1 SockAbsent)
-    [LOpen; LWriteS0; LBind; LSched AStart; LSched (ALaunch 0); LSched (AEnd 0 true); LSched ADoneSend; LNotify; LSched AWait;
+    [LLockDag; LOpen; LWriteS0; LBind; LSched AStart; LSched (ALaunch 0); LSched (AEnd 0 true); LSched ADoneSend; LNotify; LSched AWait;
      LSched AReturn; LFinalLock; LFinalCompute; LFinalAppend] = Some st /\
   exec st [LCLock; LCOv; LCTbl; LCAppend; LFsWake; LFsOv; LFsTbl; LFsAppend] = Some st' /\ file st' = file st /\ length (file st) = 2.
 Proof. exact late_snapshot_not_appended. Qed.
@@ -98,25 +99,36 @@ Print Assumptions C08_daemon.
 
 (* before fix 3aa388e: GRefusedErr (EOF) *)
 Example C08_daemon_former_witness : exists st,
-  exec (init 2 SockAbsent) [LOpen] = Some st /\ mp st = MOpened /\ job_guard (report 2 (after_kill st)) = GMinuteGuard.
+  exec (init 2 SockAbsent) [LLockDag; LOpen] = Some st /\ mp st = MOpened /\ job_guard (report 2 (after_kill st)) = GMinuteGuard.
 Proof. exact daemon_after_open. Qed.
 
-(* a kill inside Close's compaction between the creation of the twin and its first write: the complete original is reported *)
-Example C08_kill_inside_compaction : exists st,
-  exec (init 1 SockAbsent)
-    [LOpen; LWriteS0; LBind; LSched AStart; LSched (ALaunch 0); LSched (AEnd 0 true); LSched ADoneSend; LNotify; LCLock; LCOv; LCTbl; LCAppend;
-     LSched AWait; LSched AReturn; LFinalLock; LFinalCompute; LFinalAppend; LFinish; LUnbind; LCompactRead; LCompactCreate] = Some st /\
-  cfile st = Some [] /\ orig st = true /\
-  report 1 (after_kill st) = (snap_of (sc st), false) /\ s_ov (snap_of (sc st)) = OSuccess.
+(* kills inside Close's compaction (tmp created, tmp written, twin published next to the original, original unlinked): always
+   the final state is reported, never an error; a stray tmp is invisible to the reader *)
+Example C08_kill_inside_compaction :
+  reports_final_after_kill [LCompactRead] /\
+  reports_final_after_kill [LCompactRead; LCompactCreate] /\
+  reports_final_after_kill [LCompactRead; LCompactCreate; LCompactWrite] /\
+  reports_final_after_kill [LCompactRead; LCompactCreate; LCompactWrite; LCompactRename] /\
+  reports_final_after_kill [LCompactRead; LCompactCreate; LCompactWrite; LCompactRename; LCompactUnlink].
 Proof. exact kill_inside_compaction. Qed.
 
-(* After a kill anywhere a new agent's probe says "not running" and its bind (after the unlink) succeeds; the unlink is
-   what makes it so. *)
+(* After a kill anywhere the flock on the DAG file is free, a new agent's probe says "not running" and its bind (after the unlink)
+   succeeds; the unlink is what makes it so; the flock is held during start-up only. *)
 Theorem C08_restartable : forall n s0 ls st,
   exec (init n s0) ls = Some st ->
+  dlock (after_kill st) = false /\
   probe_running (sock (after_kill st)) = false /\ bind_ok true (sock (after_kill st)) = true.
 Proof. exact restartable. Qed.
 Print Assumptions C08_restartable.
+
+Theorem C08_flock_only_during_startup : forall n s0 ls st,
+  exec (init n s0) ls = Some st -> dlock st = true -> mrank (mp st) <= 2.
+Proof. exact flock_only_during_startup. Qed.
+Print Assumptions C08_flock_only_during_startup.
+
+Example C08_kill_holding_flock : exists st,
+  exec (init 2 SockStale) [LLockDag; LOpen; LWriteS0] = Some st /\ dlock st = true /\ dlock (after_kill st) = false.
+Proof. exact kill_holding_flock. Qed.
 
 Theorem C08_unlink_needed : exists ls st,
   exec (init 2 SockAbsent) ls = Some st /\ bind_ok false (sock (after_kill st)) = false.
@@ -141,6 +153,6 @@ Print Assumptions C08_snapshot_overall.
 
 (* Once the final status has been written it is, and stays, the last line of the history file. *)
 Theorem C08_final_line_is_last : forall n s0 ls st,
-  exec (init n s0) ls = Some st -> 5 <= mrank (mp st) <= 10 -> last_line (file st) = Some (snap_of (sc st)).
+  exec (init n s0) ls = Some st -> 5 <= mrank (mp st) <= 11 -> last_line (file st) = Some (snap_of (sc st)).
 Proof. exact final_line_is_last. Qed.
 Print Assumptions C08_final_line_is_last.
